@@ -271,7 +271,9 @@ pub fn connection_start(r: &mut Rng, o: &Opts) -> (Vec<u8>, Structure) {
         }
     }
     if r.chance(1, 12) && o.odd_order {
-        settings_frame = frame(4, 0, 0, &settings_payload(&settings)); // unchanged; placeholder for symmetry
+        // flag bits on the first SETTINGS frame (the ACK bit together with parameters, undefined bits): the frame
+        // is still the first SETTINGS frame and its parameters are still what the fingerprint lists
+        settings_frame = frame(4, *r.pick(&[0x01u8, 0x01, 0x02, 0x80, 0xff]), 0, &settings_payload(&settings));
     }
     if let (Some(n), true) = (o.big_frame, o.odd_order) {
         // an ordinary frame, then the oversized one, both ahead of SETTINGS
@@ -306,7 +308,8 @@ pub fn connection_start(r: &mut Rng, o: &Opts) -> (Vec<u8>, Structure) {
                 let sid = if r.chance(3, 4) { 0 } else { 1 + 2 * r.below(4) as u32 };
                 let inc = r.below(1 << 31) as u32;
                 let raw = if r.chance(1, 4) { inc | 0x8000_0000 } else { inc };
-                out.extend_from_slice(&frame(8, 0, sid, &raw.to_be_bytes()));
+                let fl = if r.chance(1, 8) { r.u8() } else { 0 };
+                out.extend_from_slice(&frame(8, fl, sid, &raw.to_be_bytes()));
                 if sid == 0 && wu.is_none() {
                     wu = Some(inc);
                 }
@@ -315,7 +318,8 @@ pub fn connection_start(r: &mut Rng, o: &Opts) -> (Vec<u8>, Structure) {
                 let (sid, ex, dep, w) = (1 + 2 * r.below(8) as u32, r.chance(1, 3), r.below(16) as u32, r.u8());
                 let mut p = (dep | if ex { 0x8000_0000 } else { 0 }).to_be_bytes().to_vec();
                 p.push(w);
-                out.extend_from_slice(&frame(2, 0, sid, &p));
+                let fl = if r.chance(1, 8) { r.u8() } else { 0 };
+                out.extend_from_slice(&frame(2, fl, sid, &p));
                 st.priorities.push((sid, ex, dep, w));
             }
             4 => out.extend_from_slice(&frame(4, 1, 0, &[])), // SETTINGS ACK
